@@ -399,7 +399,7 @@ class Engine:
         base_len = len(prefix or [])
         while self.pending:
             self.decisions = self.pending.pop(); self.dpos = 0; self.pc = []; self.cur_model = None
-            self.nchoice = 0; self.depth = 0; self.cstack = []
+            self.nchoice = 0; self.depth = 0; self.cstack = []; self.last_info = None
             self.path_steps = 0
             self.solver.push()
             try:
@@ -409,7 +409,7 @@ class Engine:
                 pass
             except Panic as e:
                 self.stats['paths'] += 1; self.stats['panics'] += 1
-                v = ('panic', str(e), self.model(), None)
+                v = ('panic', str(e), self.model(), getattr(self, 'last_info', None))
                 viol.append(v)
                 if on_violation: on_violation(v)
             except AssertionViolation as e:
